@@ -82,11 +82,16 @@ pub struct KConfig {
     /// every simulated task gets a brand-new OS thread (no pooling): thread-local state of the
     /// code under test cannot leak in from earlier runs or from an earlier task of this run
     pub fresh_threads: bool,
+    /// also make the point right AFTER the effect of every shim operation a scheduling point
+    /// (otherwise `[effect of a shim op; everything unshimmed that follows: Arc decrements, drop
+    /// glue, the task's exit; up to the next shim op]` is one atomic step). Decided per run from
+    /// the seed (a third of the runs), so it is part of what a replay file reproduces.
+    pub post_yield: bool,
 }
 
 impl KConfig {
     pub fn new(seed: u64, strategy: Strategy) -> KConfig {
-        KConfig { seed, strategy, step_cap: 20_000, record_trace: false, hb: false, fresh_threads: clean_room() }
+        KConfig { seed, strategy, step_cap: 20_000, record_trace: false, hb: false, fresh_threads: clean_room(), post_yield: crate::rng::mix(&[seed, 0x9057_1E1D]) % 3 == 0 }
     }
 }
 
@@ -197,12 +202,14 @@ pub struct KState {
     chan_log: Vec<ChanEvent>,
     /// consecutive timer firings without the idle waiters having run (see dispatch)
     timer_streak: u32,
+    coin_seed: u64,
 }
 
 pub struct Kernel {
     m: Mutex<KState>,
     main_cv: Condvar,
     fresh_threads: bool,
+    post_yield: bool,
 }
 
 type Job = Box<dyn FnOnce() + Send + 'static>;
@@ -371,9 +378,11 @@ impl Kernel {
                 hb: if cfg.hb { Some(HbTracker::new()) } else { None },
                 chan_log: Vec::new(),
                 timer_streak: 0,
+                coin_seed: cfg.seed,
             }),
             main_cv: Condvar::new(),
             fresh_threads: cfg.fresh_threads,
+            post_yield: cfg.post_yield,
         });
 
         let slot: Arc<Mutex<Option<R>>> = Arc::new(Mutex::new(None));
@@ -939,6 +948,27 @@ impl Kernel {
 }
 
 // ---- convenience free functions used by shims and harnesses ----
+
+/// A deterministic coin for the shims (true one time in `n`): a function of the run's seed and the
+/// current step, so it neither perturbs the scheduler's stream nor breaks replay.
+pub fn coin(n: u64) -> bool {
+    match current() {
+        Some((k, _)) => {
+            let st = k.lock();
+            crate::rng::mix(&[st.coin_seed, st.steps, 0xC01]) % n.max(1) == 0
+        }
+        None => false,
+    }
+}
+
+/// Scheduling point right after the effect of a shim operation (only in runs that have it enabled).
+pub fn post_effect() {
+    if let Some((k, me)) = current() {
+        if k.post_yield {
+            k.yield_point(me, || "after-effect".to_string(), &[0x7E]);
+        }
+    }
+}
 
 /// Scheduling point (no-op outside a simulation).
 pub fn yield_now_with(what: impl FnOnce() -> String, h: &[u64]) {
